@@ -4,7 +4,7 @@ package main
 
 const ruleW3C15 = "one evaluation = one seeded simulated history of pkg/policy's PolicyManager on one node: a generated cluster (1-3 labelled namespaces, " +
 	"2-8 labelled pods with addresses on this node and another, 0-5 NetworkPolicies built from pod selectors, namespace selectors, ipBlocks with " +
-	"exceptions, numeric TCP/UDP ports, ingress/egress/both), a generated prior kernel state (empty / as an earlier galaxy left it for the same " +
+	"exceptions - in part of the runs written with host bits set, e.g. 10.244.1.3/16, as the API accepts them -, numeric TCP/UDP ports, ingress/egress/both), a generated prior kernel state (empty / as an earlier galaxy left it for the same " +
 	"cluster / as it left it for a different cluster: other labels and specs, policies and pods that no longer exist, a pod under an old address, " +
 	"unreferenced stale GLX chains and sets; plus foreign filter/nat chains, rules and ipsets), the ADDED notifications of the policies that exist at " +
 	"start, then 0-12 operations (pod add/delete/relabel/address/re-create, policy add/update/delete, namespace relabel/add, periodic full sync, " +
@@ -20,7 +20,8 @@ const ruleW3C16 = "one evaluation = one simulated history as for C15 (same gener
 	"c16.skipped-c15-known), every flow in {pod of this node} x {every other pod with an address, 5 fixed external addresses, one address inside every ipBlock " +
 	"exception} x {to, from} x {tcp, udp} x {every port the generator uses, one unused port} is judged twice: by a packet walk over iptables-save + " +
 	"ipset save of the simulated kernel (NEW connection through FORWARD into GLX-EGRESS / GLX-INGRESS in the order FORWARD jumps to them; hash:net " +
-	"nomatch honoured) and by a reference evaluator of the NetworkPolicy API semantics; all verdicts must agree (coverage counter c16.flows = " +
+	"nomatch honoured) and by a reference evaluator of the NetworkPolicy API semantics; all verdicts must agree; if a second full synchronisation of the unchanged " +
+	"state changes the kernel state, the flows are judged again on that state (coverage counter c16.flows = " +
 	"number of flow judgements). A run is non-trivial if at least one flow was admitted and at least one refused by the installed rules. " +
 	"distinct_nontrivial counts distinct signatures as for C15."
 
@@ -30,11 +31,11 @@ var assumeW3 = []string{
 	"rule identity (for -C/-D and for the comparison with the model) is the parsed rule in iptables-save order, comments included for -C/-D and ignored by the model; only the option vocabulary galaxy and the generated foreign rules use is parsed, anything else ends the run as infrastructure trouble (exit 2), never as a verdict",
 	"ownership: filter chains named GLX-*, built-in-chain rules that jump to GLX-INGRESS/GLX-EGRESS and ipsets named GLX-* are galaxy's; everything else (incl. the nat and mangle tables) is foreign; the generator gives no foreign object a GLX- name",
 	"galaxy tasks run one at a time and no fault is injected: C15/C16 quantify over inputs and histories, not over interleavings or failures; informer views lag per kind; at the end every event is delivered before the synchronisation that is judged",
-	"histories start the way galaxy starts: the existing policies arrive as ADDED notifications (lister showing either the notified prefix or the full list), optionally preceded by the first periodic Run; pods and namespaces are in the cache first (startPodInformerFactory waits for them); the stand-in pod informer always reports HasSynced()=true, so the syncPods branch that lists pods through the API client (no policy ever seen) is not exercised",
+	"histories start the way galaxy starts: the existing policies arrive as ADDED notifications (lister showing either the notified prefix or the full list), optionally preceded by the first periodic Run; pods and namespaces are in the cache first (startPodInformerFactory waits for them). The stand-in pod informer (hook) has the real one's life cycle: when no NetworkPolicy exists at start it is not started, syncPods then lists this node's pods through the API client (field selector spec.nodeName honoured) - the branch a restarted daemon uses to remove stale pod chains when the last policy was deleted while it was down - until the policy lister first shows a policy; from then on, or when a policy exists at start, it is synced for good",
 	"C15's expected state comes from the property/doc semantics; only galaxy's NAMING scheme is mirrored (needed to tell whose object is whose). It is compared modulo rule order inside a policy chain, port order/duplicates inside a multiport list and comment texts. Whether peers mean what the API says (deviation D6) is C16's clause: C15 accepts the compiled state under either reading",
 	"C16: flows are judged on the FORWARD path only (host<->pod traffic through INPUT/OUTPUT is not judged); conntrack state is NEW; verdict DROP = refused, ACCEPT or leaving galaxy's chains = admitted; foreign FORWARD rules are ignored; enforcement is judged for pods of this node only (egress side if the source is local, ingress side if the destination is local)",
 	"not generated (outside the property's quantifier or another property's subject): named ports, ports without a number, SCTP, endPort, hostNetwork pods, pod phases, rules of a direction that spec.policyTypes switches off (these make SyncPodIPInIPSet dereference nil - C18), the same CIDR as block and as exception inside one rule, foreign objects named GLX*",
-	"known findings are encoded as named deviation switches of the reference model (D6, D11, D12, D13 for C16; D8, S1, S3 for C15): a failure reproduced exactly with listed switches on is reported as KNOWN-FINDING keyed by the switch names, any other failure is a VIOLATION",
+	"known findings are encoded as named deviation switches of the reference model (D6, D11, D12, D13 for C16; D8, S1, S3 for C15): a failure reproduced exactly with listed switches on is reported as KNOWN-FINDING keyed by the switch names, any other failure is a VIOLATION. D8 (policy batch refused) explains only stale/missing/outdated policy chains, their sets, and the chains and dispatch rules of pods that must jump to a policy chain the refused batch would have created; it never excuses a leftover chain of a pod no policy selects",
 	"a clean batch is evidence, not proof: inputs and histories are sampled from a seeded stream",
 }
 
